@@ -9,6 +9,7 @@ mod norm;
 mod pool;
 mod prng;
 mod recsim;
+mod rectypes;
 mod sources;
 mod srcsim;
 mod tok;
@@ -206,30 +207,94 @@ fn run_engine(ename: &str, tier: &str, seed: u64, first: u64, count: u64, worker
 
     // report: minimise, write replay files, confirm in a fresh process
     let replays = PathBuf::from(std::env::var("VERIF_REPLAYS").unwrap_or_else(|_| "/verif/replays".into()));
-    let mut confirmed = 0;
-    let mut lines = Vec::new();
-    for v in violations.iter().take(3) {
-        std::fs::create_dir_all(&replays).ok();
-        let raw = replays.join(format!("{}-{}-{}-{}.raw.json", v.property, v.engine, v.seed, v.case));
-        std::fs::write(&raw, serde_json::to_vec_pretty(&v.replay).unwrap()).unwrap();
-        let min = replays.join(format!("{}-{}-{}-{}.json", v.property, v.engine, v.seed, v.case));
-        let mut mc = Command::new(&exe);
-        mc.arg("minimise").arg(&raw).arg(&min).stdin(Stdio::null()).stdout(Stdio::null());
-        let (ms, _) = run_with_timeout(&mut mc, 300);
-        if !ms.map(|s| s.success()).unwrap_or(false) || !min.exists() {
-            std::fs::copy(&raw, &min).ok();
+    let confirm = |violations: &[Violation]| -> (usize, Vec<String>) {
+        let mut confirmed = 0;
+        let mut lines = Vec::new();
+        for v in violations.iter().take(3) {
+            std::fs::create_dir_all(&replays).ok();
+            let raw = replays.join(format!("{}-{}-{}-{}.raw.json", v.property, v.engine, v.seed, v.case));
+            std::fs::write(&raw, serde_json::to_vec_pretty(&v.replay).unwrap()).unwrap();
+            let min = replays.join(format!("{}-{}-{}-{}.json", v.property, v.engine, v.seed, v.case));
+            let mut mc = Command::new(&exe);
+            mc.arg("minimise").arg(&raw).arg(&min).stdin(Stdio::null()).stdout(Stdio::null());
+            let (ms, _) = run_with_timeout(&mut mc, 300);
+            if !ms.map(|s| s.success()).unwrap_or(false) || !min.exists() {
+                std::fs::copy(&raw, &min).ok();
+            }
+            // replay in a fresh process: must fail the same way
+            let mut rc = Command::new(&exe);
+            rc.arg("replay").arg(&min).stdin(Stdio::null()).stdout(Stdio::null());
+            let (rs, rto) = run_with_timeout(&mut rc, 300);
+            let reproduced = rto || rs.map(|s| s.code() == Some(1) || s.code().is_none()).unwrap_or(true);
+            if reproduced {
+                confirmed += 1;
+                println!("violation: {}", v.summary);
+                lines.push(format!("VIOLATION property={} replay={}", v.property, min.display()));
+            } else {
+                println!("note: the violation reported for case {} did not reproduce from {} in a fresh process (withdrawn)", v.case, min.display());
+            }
         }
-        // replay in a fresh process: must fail the same way
-        let mut rc = Command::new(&exe);
-        rc.arg("replay").arg(&min).stdin(Stdio::null()).stdout(Stdio::null());
-        let (rs, rto) = run_with_timeout(&mut rc, 300);
-        let reproduced = rto || rs.map(|s| s.code() == Some(1) || s.code().is_none()).unwrap_or(true);
-        if reproduced {
-            confirmed += 1;
-            println!("violation: {}", v.summary);
-            lines.push(format!("VIOLATION property={} replay={}", v.property, min.display()));
-        } else {
-            println!("HARNESS-ERROR: violation for case {} did not reproduce from {} (withdrawn)", v.case, min.display());
+        (confirmed, lines)
+    };
+    let (mut confirmed, mut lines) = confirm(&violations);
+    if !violations.is_empty() && confirmed == 0 && workers > 1 {
+        // Nothing the worker THREADS of the child reported reproduces alone. Those threads run different
+        // cases at the same time in one process, which the simulator does not schedule: state that the
+        // library keeps per process lets one case disturb another there, and such a report cannot
+        // replay. Second pass with that source of nondeterminism removed: the same case range split over
+        // `workers` PROCESSES with one worker thread each (every thread of such a process belongs to one
+        // case and runs under that case's own scheduler); what they report is confirmed as above.
+        println!("isolation pass: re-running cases {}..{} as {} single-worker processes", first, first + count, workers);
+        let mut kids = Vec::new();
+        let per = count.div_ceil(workers as u64).max(1);
+        for w in 0..workers as u64 {
+            let f = first + w * per;
+            if f >= first + count {
+                break;
+            }
+            let n = per.min(first + count - f);
+            let o = scratch.join(format!("iso-{}.json", w));
+            let mut c = Command::new(&exe);
+            c.args(["child", ename, "--tier", tier, "--seed", &seed.to_string(), "--first", &f.to_string(), "--cases", &n.to_string(), "--workers", "1"]).arg("--out").arg(&o).stdin(Stdio::null());
+            match c.spawn() {
+                Ok(ch) => kids.push((ch, o, f, n)),
+                Err(e) => harness_error(&format!("spawn: {}", e)),
+            }
+        }
+        let mut iso: Vec<Violation> = Vec::new();
+        let t0 = Instant::now();
+        for (mut ch, o, f, n) in kids {
+            // (same overall limit as the first pass)
+            let st = loop {
+                match ch.try_wait() {
+                    Ok(Some(st)) => break Some(st),
+                    Ok(None) if t0.elapsed() > Duration::from_secs(timeout) => {
+                        let _ = ch.kill();
+                        let _ = ch.wait();
+                        break None;
+                    }
+                    Ok(None) => std::thread::sleep(Duration::from_millis(20)),
+                    Err(e) => harness_error(&format!("wait: {}", e)),
+                }
+            };
+            if !st.map(|s| s.success()).unwrap_or(false) {
+                println!("isolation pass: the process for cases {}..{} ended abnormally ({:?})", f, f + n, st);
+                continue;
+            }
+            if let Ok(b) = std::fs::read(&o) {
+                if let Ok(j) = serde_json::from_slice::<Value>(&b) {
+                    let vs: Vec<Violation> = serde_json::from_value(j["violations"].clone()).unwrap_or_default();
+                    iso.extend(vs);
+                }
+            }
+        }
+        iso.sort_by_key(|v| v.case);
+        println!("isolation pass: {} violation(s) reported", iso.len());
+        let (c2, l2) = confirm(&iso);
+        confirmed = c2;
+        lines = l2;
+        if confirmed == 0 {
+            println!("HARNESS-ERROR: {} violation(s) were reported by worker threads sharing one process, none reproduces alone and single-worker processes report none that does", violations.len());
         }
     }
     std::fs::remove_dir_all(&scratch).ok();
@@ -685,6 +750,25 @@ fn replay_file(p: &Path, verbose: bool) -> i32 {
                 }
             }
         }
+        "recsim" if v.get("rectypes").is_some() => {
+            let ty = v["rectypes"]["ty"].as_u64().unwrap_or(0) as u8;
+            let input: Vec<u8> = v["rectypes"]["input"].as_str().unwrap_or("").bytes().collect();
+            let life: recsim::Life = serde_json::from_value(v["rectypes"]["life"].clone()).unwrap_or(recsim::Life::Value);
+            match rectypes::check(ty, &input, &life) {
+                Ok(Some((class, exp, obs))) => {
+                    if verbose {
+                        println!("reproduced property=C12 class={}\n output type={} input={:?} lifecycle={:?}\n unrolled={}\n recursive={}", class, rectypes::TYPE_NAMES[ty as usize % 8], String::from_utf8_lossy(&input), life, exp, obs);
+                    }
+                    1
+                }
+                _ => {
+                    if verbose {
+                        println!("not reproduced");
+                    }
+                    0
+                }
+            }
+        }
         "recsim" if v.get("tree").is_some() => {
             let c: recsim::tree::TreeCase = serde_json::from_value(v["tree"].clone()).unwrap_or_else(|e| harness_error(&format!("bad recsim tree replay: {}", e)));
             match recsim::tree::run_case(&c) {
@@ -841,6 +925,38 @@ fn minimise_file(src: &Path, dst: &Path) {
             let rp: srcsim::Replay = serde_json::from_value(v).unwrap();
             let m = srcsim::minimise(&rp);
             std::fs::write(dst, serde_json::to_vec_pretty(&m).unwrap()).unwrap();
+        }
+        "recsim" if v.get("rectypes").is_some() => {
+            // drop bytes of the input while a recursive form still differs from the unrolling; plain lifecycle
+            let ty = v["rectypes"]["ty"].as_u64().unwrap_or(0) as u8;
+            let mut input: Vec<u8> = v["rectypes"]["input"].as_str().unwrap_or("").bytes().collect();
+            let mut life: recsim::Life = serde_json::from_value(v["rectypes"]["life"].clone()).unwrap_or(recsim::Life::Value);
+            let fails = |i: &[u8], l: &recsim::Life| matches!(rectypes::check(ty, i, l), Ok(Some(_)));
+            if fails(&input, &recsim::Life::Value) {
+                life = recsim::Life::Value;
+            }
+            let mut progress = true;
+            while progress {
+                progress = false;
+                for k in 0..input.len() {
+                    let mut cand = input.clone();
+                    cand.remove(k);
+                    if fails(&cand, &life) {
+                        input = cand;
+                        progress = true;
+                        break;
+                    }
+                }
+            }
+            let mut d = v.clone();
+            d["rectypes"]["input"] = json!(String::from_utf8_lossy(&input));
+            d["rectypes"]["life"] = serde_json::to_value(&life).unwrap();
+            if let Ok(Some((class, e, o))) = rectypes::check(ty, &input, &life) {
+                d["class"] = json!(class);
+                d["expected"] = json!(e);
+                d["observed"] = json!(o);
+            }
+            std::fs::write(dst, serde_json::to_vec_pretty(&d).unwrap()).unwrap();
         }
         "recsim" if v.get("tree").is_some() => {
             // shrink the tree case: smaller depth, no siblings, no memo, plain lifecycle
